@@ -1064,6 +1064,8 @@ static json gen_table() {
     }
     flags += pick<char>({'i', 'o', 'u'});
   }
+  // tables whose flags were never set (blank): the writer then omits the flag column, lines are "x y" / "x y yerr"
+  if (rbool(25)) flags = std::string(flags.size(), ' ');
   c["x"] = x;
   c["y"] = y;
   c["yerr"] = e;
@@ -1101,6 +1103,7 @@ static Result run_table(const json &c) {
     r.cls("comment-lines");
   }
   r.cls(he ? "with-error-column" : "no-error-column");
+  if (n > 0 && flags[0] == ' ') r.cls(he ? "flags-unset(x y yerr lines)" : "flags-unset(x y lines)");
   if (n == 0) r.cls("empty");
   bool mixed = flags.find('o') != std::string::npos || flags.find('u') != std::string::npos;
   r.nontrivial = n >= 2 && mixed;
@@ -1125,7 +1128,8 @@ static Result run_table(const json &c) {
       r.fail("Table/values", fmt("row %ld: saved (%.17g, %.17g), loaded (%.17g, %.17g)", long(i), x[size_t(i)], y[size_t(i)], u.x(i), u.y(i)));
       return r;
     }
-    if (u.flags(i) != flags[size_t(i)]) {
+    // an unset (blank) flag is not written; the reader's default for a line without flag is 'i'
+    if (flags[size_t(i)] == ' ' ? (u.flags(i) != 'i' && u.flags(i) != ' ') : (u.flags(i) != flags[size_t(i)])) {
       r.fail("Table/flags", fmt("row %ld: flag '%c' saved, '%c' loaded", long(i), flags[size_t(i)], u.flags(i)));
       return r;
     }
